@@ -1,13 +1,600 @@
-//! C14 — stub (not built yet; not registered in MANIFEST.json).
-use super::*;
+//! C14 — encrypted output decrypts to the exact package, with the right password only.
+//!
+//! Oracle: `model::offcrypto` (own [MS-OFFCRYPTO] agile decryptor).  Projection compared:
+//! exactly what the statement names — EncryptionInfo is agile 4.4; the password verifier
+//! matches; the decrypted bytes (cut at StreamSize) equal the unencrypted package;
+//! StreamSize equals the package length; the HMAC over the whole EncryptedPackage stream
+//! verifies; a different password fails the verifier; both salts, the package key and the
+//! verifier input differ between two saves.  Not demanded: the \x06DataSpaces storage
+//! (observed and counted as a class only, see notes/C14.md), the padding bytes, the value
+//! of any random field.
+use super::Prop;
+use crate::engine::*;
+use crate::gen::password::{password, pw_class, wrong_of};
+use crate::model::offcrypto as oc;
+use proptest::prelude::*;
+use rayon::prelude::*;
+use serde::{Deserialize, Serialize};
+use serde_json::{json, Value};
+use std::collections::BTreeMap;
+use std::path::PathBuf;
+use std::sync::atomic::{AtomicU64, Ordering};
 
 pub fn prop() -> Prop {
     Prop {
         id: "C14",
-        describe: |_| {},
-        subs: no_subs,
-        extra: no_extra,
-        replay_extra: no_replay_extra,
-        watchdog_s: (900, 7200),
+        describe,
+        subs,
+        extra,
+        replay_extra,
+        watchdog_s: (900, 14400),
+    }
+}
+
+fn describe(ctx: &Ctx) {
+    ctx.rule("set_password: (password, package size, content seed) with sizes from {0,1,15,16,17,31,32,33,4079..4097,4111..4113,k*4096-1,k*4096,k*4096+1} and generated sizes, content = splitmix bytes; write_with_password(_light): generated workbooks (1-3 sheets, text/number/bool cells, filler rows); boundary leg: every named boundary size once per run. Non-trivial = package size not a multiple of 16, or larger than one 4096-byte segment, or a non-ASCII password; distinct by serialized case");
+    ctx.assume("reference decryptor = harness/src/model/offcrypto.rs written from [MS-OFFCRYPTO] 2.3.4.10-15; shares only the aes/sha2/hmac primitive crates and the cfb container reader with the library; hash iterations cross-checked against Python hashlib/hmac in every run (pytools/offcrypto_selftest.py), AES-CBC against NIST SP 800-38A F.2.5");
+    ctx.assume("passwords are at most 255 UTF-16 code units ([MS-OFFCRYPTO] 2.3.4.11 limit) and contain no NUL / lone surrogates");
+    ctx.assume("the \\x06DataSpaces storage is observed (class counter) but not required: the statement lists verifier, HMAC, length and content only");
+    ctx.assume("freshness is judged by inequality of two 16/32-byte values from two saves (false alarm probability 2^-128)");
+}
+
+// ---------------------------------------------------------------------------------------
+// scratch directory, removed when the case ends (also on panic)
+
+static DIR_COUNTER: AtomicU64 = AtomicU64::new(0);
+
+pub struct Scratch {
+    pub dir: PathBuf,
+}
+
+impl Scratch {
+    pub fn new(tag: &str) -> Result<Scratch, String> {
+        let n = DIR_COUNTER.fetch_add(1, Ordering::Relaxed);
+        let dir = std::env::temp_dir().join(format!("umya-verif-{}-{}-{}", tag, std::process::id(), n));
+        let _ = std::fs::remove_dir_all(&dir);
+        std::fs::create_dir_all(&dir).map_err(|e| format!("cannot create {}: {}", dir.display(), e))?;
+        Ok(Scratch { dir })
+    }
+    pub fn path(&self, name: &str) -> PathBuf {
+        self.dir.join(name)
+    }
+}
+
+impl Drop for Scratch {
+    fn drop(&mut self) {
+        let _ = std::fs::remove_dir_all(&self.dir);
+    }
+}
+
+// ---------------------------------------------------------------------------------------
+// shared judgement of one encrypted file
+
+pub fn size_class(n: usize) -> &'static str {
+    if n == 0 {
+        "empty-package"
+    } else if n % 4096 == 0 {
+        "segment-multiple"
+    } else if n % 16 == 0 {
+        "block-multiple"
+    } else if n < 16 {
+        "below-one-block"
+    } else if n % 4096 < 16 {
+        "just-over-segment"
+    } else if n % 4096 > 4096 - 16 {
+        "just-under-segment"
+    } else {
+        "unaligned"
+    }
+}
+
+pub struct Judged {
+    pub info: oc::AgileInfo,
+    pub secrets: oc::Secrets,
+    pub plain: Vec<u8>,
+    pub has_dataspaces: bool,
+}
+
+/// Everything the statement says about ONE encrypted file.  `expect_len`/`expect_bytes`:
+/// the unencrypted package when it is known byte for byte (`set_password`).
+pub fn judge_encrypted(file: &[u8], pw: &str, wrong: &str, expect_bytes: Option<&[u8]>) -> Result<Judged, Verdict> {
+    let pwc = pw_class(pw);
+    let cont = oc::open_container(file).map_err(|e| Verdict::fail(format!("{}/not-a-compound-file", e.key()), e.to_string()))?;
+    let info = oc::parse_encryption_info(&cont.encryption_info).map_err(|e| Verdict::fail(format!("encryption-info/{}", e.key()), e.to_string()))?;
+    // the library's contract is one fixed parameter set; anything else the reference
+    // supports would be fine by the statement, so nothing is asserted about the values
+    let secrets = match oc::unlock(&info, pw) {
+        Ok(s) => s,
+        Err(oc::OffErr::Verifier) => {
+            return Err(Verdict::fail(
+                format!("{}/verifier-mismatch", pwc),
+                format!("the reference KDF ([MS-OFFCRYPTO] 2.3.4.11/13) does not accept the password the file was written with (password of {} UTF-16 units, spinCount {})", crate::gen::password::utf16_len(pw), info.password.spin_count),
+            ))
+        }
+        Err(e) => return Err(Verdict::fail(format!("key-encryptor/{}", e.key()), e.to_string())),
+    };
+    let package = oc::decrypt_package(&info, &secrets.package_key, &cont.encrypted_package).map_err(|e| {
+        Verdict::fail(
+            format!("{}/{}", expect_bytes.map(|b| size_class(b.len())).unwrap_or("workbook-package"), e.key()),
+            e.to_string(),
+        )
+    })?;
+    if let Some(want) = expect_bytes {
+        let sc = size_class(want.len());
+        if package.declared_len != want.len() as u64 {
+            return Err(Verdict::fail(
+                format!("{}/declared-length", sc),
+                format!("StreamSize says {} bytes, the package has {} ({} encrypted bytes follow the field)", package.declared_len, want.len(), cont.encrypted_package.len() - 8),
+            ));
+        }
+        if package.bytes() != want {
+            let first = package.bytes().iter().zip(want.iter()).position(|(a, b)| a != b).unwrap_or(0);
+            return Err(Verdict::fail(
+                format!("{}/content-differs", sc),
+                format!("decrypted package differs from the input at offset {} (segment {}, block {} of it); package of {} bytes", first, first / 4096, (first % 4096) / 16, want.len()),
+            ));
+        }
+    }
+    if let Err(e) = oc::check_integrity(&info, &secrets.package_key, &cont.encrypted_package) {
+        return Err(Verdict::fail(format!("data-integrity/{}", e.key()), e.to_string()));
+    }
+    // a different password must fail the verifier
+    match oc::unlock(&info, wrong) {
+        Err(oc::OffErr::Verifier) => {}
+        Ok(_) => {
+            return Err(Verdict::fail(
+                format!("{}/wrong-password-accepted", pwc),
+                format!("file written with {:?} also unlocks with {:?}", pw, wrong),
+            ))
+        }
+        Err(e) => return Err(Verdict::fail(format!("key-encryptor/{}", e.key()), format!("with a wrong password: {}", e))),
+    }
+    // values that must be random may not coincide inside one file either
+    if info.key_data.salt == info.password.params.salt {
+        return Err(Verdict::fail("freshness/one-salt-for-both", "keyData.saltValue equals the password key encryptor's saltValue"));
+    }
+    if secrets.verifier_input == info.password.params.salt || secrets.verifier_input == info.key_data.salt {
+        return Err(Verdict::fail("freshness/verifier-input-is-a-salt", "the verifier hash input equals one of the salts"));
+    }
+    let has_dataspaces = oc::check_dataspaces(&cont).is_ok();
+    let plain = package.bytes().to_vec();
+    Ok(Judged { info, secrets, plain, has_dataspaces })
+}
+
+/// Freshness between two files written with the same password from the same input.
+pub fn judge_fresh(a: &Judged, second_file: &[u8], pw: &str) -> Result<(), Verdict> {
+    let cont = oc::open_container(second_file).map_err(|e| Verdict::fail(format!("{}/not-a-compound-file", e.key()), format!("second save: {}", e)))?;
+    let info = oc::parse_encryption_info(&cont.encryption_info).map_err(|e| Verdict::fail(format!("encryption-info/{}", e.key()), format!("second save: {}", e)))?;
+    let s = oc::unlock(&info, pw).map_err(|e| Verdict::fail(format!("{}/verifier-mismatch", pw_class(pw)), format!("second save: {}", e)))?;
+    if info.key_data.salt == a.info.key_data.salt {
+        return Err(Verdict::fail("freshness/keydata-salt-reused", format!("two saves carry the same keyData.saltValue {}", oc::hex(&info.key_data.salt))));
+    }
+    if info.password.params.salt == a.info.password.params.salt {
+        return Err(Verdict::fail("freshness/password-salt-reused", format!("two saves carry the same p:encryptedKey saltValue {}", oc::hex(&info.password.params.salt))));
+    }
+    if s.package_key == a.secrets.package_key {
+        return Err(Verdict::fail("freshness/package-key-reused", "two saves use the same package key"));
+    }
+    if s.verifier_input == a.secrets.verifier_input {
+        return Err(Verdict::fail("freshness/verifier-input-reused", format!("two saves use the same verifier hash input {}", oc::hex(&s.verifier_input))));
+    }
+    Ok(())
+}
+
+// ---------------------------------------------------------------------------------------
+// sub-check 1: set_password on arbitrary byte files
+
+#[derive(Debug, Clone, Serialize, Deserialize)]
+pub struct SetPwCase {
+    pub password: String,
+    pub wrong_mode: u8,
+    pub size: u32,
+    pub fill: u64,
+}
+
+pub fn fill_bytes(size: usize, seed: u64) -> Vec<u8> {
+    let mut v = Vec::with_capacity(size + 8);
+    let mut x = seed;
+    while v.len() < size {
+        x = splitmix(x);
+        v.extend_from_slice(&x.to_le_bytes());
+    }
+    v.truncate(size);
+    v
+}
+
+pub fn boundary_sizes(max_k: u32) -> Vec<u32> {
+    let mut v = vec![0u32, 1, 15, 16, 17, 31, 32, 33, 4079, 4080, 4081, 4095, 4096, 4097, 4111, 4112, 4113];
+    for k in 2..=max_k {
+        v.extend_from_slice(&[k * 4096 - 1, k * 4096, k * 4096 + 1]);
+    }
+    v
+}
+
+fn setpw_case(t: Tier) -> BoxedStrategy<SetPwCase> {
+    let size = prop_oneof![
+        5 => prop::sample::select(boundary_sizes(t.pick(4, 40))),
+        2 => 0u32..100,
+        2 => 0u32..t.pick(20_000, 300_000),
+        1 => (1u32..t.pick(6, 60), 0u32..33).prop_map(|(k, d)| k * 4096 + d - 16),
+    ];
+    (password(true), any::<u8>(), size, any::<u64>())
+        .prop_map(|(password, wrong_mode, size, fill)| SetPwCase { password, wrong_mode, size, fill })
+        .boxed()
+}
+
+fn nontrivial(size: usize, pw: &str) -> bool {
+    size % 16 != 0 || size > 4096 || !pw.is_ascii()
+}
+
+fn check_setpw(c: &SetPwCase, obs: &mut Obs) -> Verdict {
+    let size = c.size as usize;
+    obs.class(pw_class(&c.password));
+    obs.class(size_class(size));
+    obs.nontrivial(nontrivial(size, &c.password));
+    let input = fill_bytes(size, c.fill);
+    let wrong = wrong_of(&c.password, c.wrong_mode);
+    let sc = match Scratch::new("c14s") {
+        Ok(s) => s,
+        Err(e) => return Verdict::Discard(e),
+    };
+    let from = sc.path("in.bin");
+    if let Err(e) = std::fs::write(&from, &input) {
+        return Verdict::Discard(format!("cannot write the input file: {}", e));
+    }
+    let mut outs: Vec<Vec<u8>> = Vec::new();
+    for i in 0..2 {
+        let to = sc.path(&format!("out{}.xlsx", i));
+        match guard(|| umya_spreadsheet::writer::xlsx::set_password(&from, &to, &c.password)) {
+            Err(p) => return Verdict::fail(format!("{}/panic:{}", size_class(size), p.site()), format!("set_password on a {}-byte file: {}", size, p.short())),
+            Ok(Err(e)) => return Verdict::fail(format!("{}/error", size_class(size)), format!("set_password on a {}-byte file returned {:?}", size, e)),
+            Ok(Ok(())) => {}
+        }
+        match std::fs::read(&to) {
+            Ok(b) => outs.push(b),
+            Err(e) => return Verdict::fail("output/missing", format!("set_password returned Ok but {} cannot be read: {}", to.display(), e)),
+        }
+    }
+    let j = match judge_encrypted(&outs[0], &c.password, &wrong, Some(&input)) {
+        Ok(j) => j,
+        Err(v) => return v,
+    };
+    obs.class(if j.has_dataspaces { "dataspaces-present" } else { "dataspaces-absent" });
+    if let Err(v) = judge_fresh(&j, &outs[1], &c.password) {
+        return v;
+    }
+    Verdict::Pass
+}
+
+// ---------------------------------------------------------------------------------------
+// sub-check 2: write_with_password / write_with_password_light on generated workbooks
+
+#[derive(Debug, Clone, Serialize, Deserialize)]
+pub enum CellV {
+    S(String),
+    N(i32, u8),
+    B(bool),
+}
+
+#[derive(Debug, Clone, Serialize, Deserialize)]
+pub struct WbCase {
+    pub password: String,
+    pub wrong_mode: u8,
+    pub light: bool,
+    /// extra sheets beyond the first
+    pub extra_sheets: u8,
+    /// (sheet raw index, column 1.., row 1.., value)
+    pub cells: Vec<(u16, u8, u16, CellV)>,
+    /// rows of filler text in column H of the first sheet (varies the package size)
+    pub filler: u16,
+}
+
+fn safe_text() -> BoxedStrategy<String> {
+    // text that C01 territory does not dispute: no edge blanks, no controls, no markup
+    let ch = prop_oneof![
+        12 => prop::char::range('a', 'z'),
+        4 => prop::char::range('A', 'Z'),
+        3 => prop::char::range('0', '9'),
+        2 => prop::sample::select(vec!['é', 'Ж', '日', '本', '😀', '-', '_', '.']),
+    ];
+    (prop::char::range('a', 'z'), prop::collection::vec(ch, 0..12))
+        .prop_map(|(a, v)| {
+            let mut s = String::new();
+            s.push(a);
+            s.extend(v);
+            s
+        })
+        .boxed()
+}
+
+fn wb_case(t: Tier) -> BoxedStrategy<WbCase> {
+    let cellv = prop_oneof![
+        4 => safe_text().prop_map(CellV::S),
+        3 => (-100000i32..100000, 0u8..4).prop_map(|(n, d)| CellV::N(n, d)),
+        1 => any::<bool>().prop_map(CellV::B),
+    ];
+    let cell = (any::<u16>(), 1u8..=30, prop_oneof![3 => 1u16..=40, 1 => prop::sample::select(vec![99u16, 100, 1000, 65535])], cellv);
+    (
+        password(true),
+        any::<u8>(),
+        any::<bool>(),
+        0u8..3,
+        prop::collection::vec(cell, 1..t.pick(12, 40)),
+        prop_oneof![2 => Just(0u16), 2 => 0u16..t.pick(200, 3000)],
+    )
+        .prop_map(|(password, wrong_mode, light, extra_sheets, cells, filler)| WbCase { password, wrong_mode, light, extra_sheets, cells, filler })
+        .boxed()
+}
+
+fn num_of(n: i32, d: u8) -> f64 {
+    // n / 10^d written as the decimal literal and parsed, so the value is the nearest double
+    let neg = n < 0;
+    let a = (n as i64).unsigned_abs();
+    let p = 10u64.pow(d as u32);
+    let s = if d == 0 { format!("{}", a) } else { format!("{}.{:0w$}", a / p, a % p, w = d as usize) };
+    let v: f64 = s.parse().unwrap();
+    if neg {
+        -v
+    } else {
+        v
+    }
+}
+
+fn col_letters(mut c: u32) -> String {
+    let mut s = Vec::new();
+    while c > 0 {
+        let r = (c - 1) % 26;
+        s.push((b'A' + r as u8) as char);
+        c = (c - 1) / 26;
+    }
+    s.iter().rev().collect()
+}
+
+/// Builds the workbook through the public API and returns it with the expected
+/// (sheet index, coordinate) -> display value map taken from the model before saving.
+fn build_wb(c: &WbCase) -> (umya_spreadsheet::Spreadsheet, Vec<String>, BTreeMap<(usize, String), String>) {
+    let mut book = umya_spreadsheet::new_file();
+    let mut names = vec!["Sheet1".to_string()];
+    for i in 0..c.extra_sheets {
+        let name = format!("Extra{}", i + 1);
+        book.new_sheet(name.clone()).unwrap();
+        names.push(name);
+    }
+    let nsheets = names.len();
+    let mut set: BTreeMap<(usize, String), Option<String>> = BTreeMap::new();
+    for (sraw, col, row, v) in c.cells.iter() {
+        let si = pick_idx(*sraw, nsheets);
+        let coord = format!("{}{}", col_letters(*col as u32), row);
+        let sheet = book.get_sheet_mut(&si).unwrap();
+        let cell = sheet.get_cell_mut(coord.as_str());
+        let text = match v {
+            CellV::S(s) => {
+                cell.set_value_string(s.clone());
+                Some(s.clone())
+            }
+            CellV::N(n, d) => {
+                cell.set_value_number(num_of(*n, *d));
+                None
+            }
+            CellV::B(b) => {
+                cell.set_value_bool(*b);
+                None
+            }
+        };
+        set.insert((si, coord), text);
+    }
+    for r in 0..c.filler {
+        // column AH: outside the generated columns (1..=30)
+        let coord = format!("AH{}", r + 1);
+        let s = format!("filler-{}-{:x}", r, splitmix(r as u64 ^ 0xC14));
+        book.get_sheet_mut(&0).unwrap().get_cell_mut(coord.as_str()).set_value_string(s.clone());
+        set.insert((0, coord), Some(s));
+    }
+    let mut expect = BTreeMap::new();
+    for ((si, coord), t) in set.iter() {
+        let v = book.get_sheet(si).unwrap().get_value(coord.as_str());
+        if let Some(t) = t {
+            // sanity of the model itself: a string cell shows the string that was set
+            assert_eq!(&v, t, "model: string cell shows something else before saving");
+        }
+        expect.insert((*si, coord.clone()), v);
+    }
+    (book, names, expect)
+}
+
+fn check_wb(c: &WbCase, obs: &mut Obs) -> Verdict {
+    obs.class(pw_class(&c.password));
+    obs.class(if c.light { "write_with_password_light" } else { "write_with_password" });
+    let wrong = wrong_of(&c.password, c.wrong_mode);
+    let built = guard(|| build_wb(c));
+    let (book, names, expect) = match built {
+        Ok(x) => x,
+        Err(p) => return Verdict::Discard(format!("building the workbook panicked: {}", p.short())),
+    };
+    let sc = match Scratch::new("c14w") {
+        Ok(s) => s,
+        Err(e) => return Verdict::Discard(e),
+    };
+    let api = if c.light { "write_with_password_light" } else { "write_with_password" };
+    let mut outs: Vec<Vec<u8>> = Vec::new();
+    for i in 0..2 {
+        let to = sc.path(&format!("book{}.xlsx", i));
+        let r = guard(|| {
+            if c.light {
+                umya_spreadsheet::writer::xlsx::write_with_password_light(&book, &to, &c.password)
+            } else {
+                umya_spreadsheet::writer::xlsx::write_with_password(&book, &to, &c.password)
+            }
+        });
+        match r {
+            Err(p) => return Verdict::fail(format!("workbook/panic:{}", p.site()), format!("{}: {}", api, p.short())),
+            Ok(Err(e)) => return Verdict::fail("workbook/error", format!("{} returned {:?}", api, e)),
+            Ok(Ok(())) => {}
+        }
+        match std::fs::read(&to) {
+            Ok(b) => outs.push(b),
+            Err(e) => return Verdict::fail("output/missing", format!("{} returned Ok but {} cannot be read: {}", api, to.display(), e)),
+        }
+        // nothing but the destination may be left behind
+        let left: Vec<String> = std::fs::read_dir(&sc.dir)
+            .map(|rd| rd.flatten().map(|e| e.file_name().to_string_lossy().to_string()).filter(|n| !n.starts_with("book") || !n.ends_with(".xlsx")).collect())
+            .unwrap_or_default();
+        if !left.is_empty() {
+            obs.class("temp-file-left-behind");
+        }
+    }
+    let j = match judge_encrypted(&outs[0], &c.password, &wrong, None) {
+        Ok(j) => j,
+        Err(v) => return v,
+    };
+    obs.class(if j.has_dataspaces { "dataspaces-present" } else { "dataspaces-absent" });
+    obs.class(size_class(j.plain.len()));
+    obs.nontrivial(nontrivial(j.plain.len(), &c.password));
+    // the decrypted package is the workbook: a zip the library itself reads back to the same cells
+    if j.plain.len() < 4 || &j.plain[..4] != b"PK\x03\x04" {
+        return Verdict::fail("workbook/decrypted-not-a-zip", format!("decrypted package of {} bytes does not start with a zip local header", j.plain.len()));
+    }
+    let back = match guard(|| umya_spreadsheet::reader::xlsx::read_reader(std::io::Cursor::new(j.plain.clone()), true)) {
+        Err(p) => return Verdict::fail("workbook/decrypted-unreadable", format!("reader panicked on the decrypted package: {}", p.short())),
+        Ok(Err(e)) => return Verdict::fail("workbook/decrypted-unreadable", format!("reader rejects the decrypted package: {:?}", e)),
+        Ok(Ok(b)) => b,
+    };
+    let cmp = guard(|| {
+        let got_names: Vec<String> = back.get_sheet_collection().iter().map(|s| s.get_name().to_string()).collect();
+        if got_names != names {
+            return Some(format!("sheet names {:?} instead of {:?}", got_names, names));
+        }
+        for ((si, coord), want) in expect.iter() {
+            let got = back.get_sheet(si).unwrap().get_value(coord.as_str());
+            if &got != want {
+                return Some(format!("sheet {} cell {}: {:?} instead of {:?}", si, coord, got, want));
+            }
+        }
+        for (si, s) in back.get_sheet_collection().iter().enumerate() {
+            let n = s.get_cell_collection().iter().filter(|c| !c.get_value().is_empty()).count();
+            let want = expect.iter().filter(|((i, _), v)| *i == si && !v.is_empty()).count();
+            if n != want {
+                return Some(format!("sheet {} has {} non-empty cells instead of {}", si, n, want));
+            }
+        }
+        None
+    });
+    match cmp {
+        Err(p) => return Verdict::fail("workbook/decrypted-unreadable", format!("reading cells of the decrypted package panicked: {}", p.short())),
+        Ok(Some(d)) => return Verdict::fail("workbook/decrypted-content-differs", d),
+        Ok(None) => {}
+    }
+    if let Err(v) = judge_fresh(&j, &outs[1], &c.password) {
+        return v;
+    }
+    Verdict::Pass
+}
+
+fn subs() -> Vec<Box<dyn DynSub>> {
+    vec![
+        Box::new(Sub {
+            name: "set_password",
+            strategy: setpw_case,
+            cases: (16, 400),
+            check: check_setpw,
+            max_shrink_iters: 24,
+        }),
+        Box::new(Sub {
+            name: "write_with_password",
+            strategy: wb_case,
+            cases: (8, 150),
+            check: check_wb,
+            max_shrink_iters: 24,
+        }),
+    ]
+}
+
+// ---------------------------------------------------------------------------------------
+// extra: oracle self-tests + every named boundary size once
+
+pub fn run_selftests(ctx: &Ctx) {
+    if let Err(e) = oc::internal_selftest() {
+        eprintln!("HARNESS-ERROR: offcrypto self-test failed: {}", e);
+        std::process::exit(2);
+    }
+    // Python hashlib/hmac cross-check of both iterations, the key derivation tail, the
+    // segment IV and the HMAC
+    let script = format!("{}/pytools/offcrypto_selftest.py", verif_root());
+    let vectors: Vec<String> = oc::selftest_vectors().iter().map(|v| v.to_string()).collect();
+    let child = std::process::Command::new("python3")
+        .arg(&script)
+        .arg("--stdin")
+        .stdin(std::process::Stdio::piped())
+        .stdout(std::process::Stdio::piped())
+        .stderr(std::process::Stdio::piped())
+        .spawn();
+    match child {
+        Err(e) => {
+            eprintln!("HARNESS-ERROR: cannot run python3 {}: {}", script, e);
+            std::process::exit(2);
+        }
+        Ok(mut ch) => {
+            use std::io::Write;
+            {
+                let mut si = ch.stdin.take().unwrap();
+                let _ = si.write_all(vectors.join("\n").as_bytes());
+                let _ = si.write_all(b"\n");
+            }
+            let out = ch.wait_with_output().expect("python3");
+            if !out.status.success() {
+                eprintln!(
+                    "HARNESS-ERROR: reference hash iterations disagree with Python hashlib: {} {}",
+                    String::from_utf8_lossy(&out.stdout),
+                    String::from_utf8_lossy(&out.stderr)
+                );
+                std::process::exit(2);
+            }
+            ctx.add_class("selftest/python-hashlib-vectors", vectors.len() as u64);
+        }
+    }
+}
+
+fn extra(ctx: &Ctx) {
+    run_selftests(ctx);
+    let sizes = boundary_sizes(ctx.tier.pick(4, 16));
+    let pws = ["pw", "пароль-日本", "a😀𠀋", ""];
+    let cases: Vec<SetPwCase> = sizes
+        .iter()
+        .enumerate()
+        .map(|(i, &size)| SetPwCase {
+            password: pws[(i + ctx.seed as usize) % pws.len()].to_string(),
+            wrong_mode: (i as u8).wrapping_add(ctx.seed as u8),
+            size,
+            fill: splitmix(ctx.seed ^ (size as u64) << 8),
+        })
+        .collect();
+    cases.par_iter().for_each(|c| {
+        let mut obs = Obs::default();
+        let v = match guard(|| check_setpw(c, &mut obs)) {
+            Ok(v) => v,
+            Err(p) => Verdict::fail(format!("harness-panic:{}", p.site()), p.short()),
+        };
+        let ser = serde_json::to_string(c).unwrap();
+        ctx.count_case(fnv(ser.as_bytes()) ^ 0xb0, obs.nontrivial);
+        for cl in obs.classes.iter() {
+            ctx.add_class(&format!("boundary/{}", cl), 1);
+        }
+        ctx.judge("boundary", c, v);
+    });
+    ctx.add_sample(json!({"sub": "boundary", "case": cases[2]}));
+    ctx.set_extra("boundary_sizes", json!(sizes));
+}
+
+fn replay_extra(_ctx: &Ctx, sub: &str, case: &Value) -> Option<Verdict> {
+    match sub {
+        "boundary" => {
+            let c: SetPwCase = serde_json::from_value(case.clone()).ok()?;
+            let mut obs = Obs::default();
+            Some(match guard(|| check_setpw(&c, &mut obs)) {
+                Ok(v) => v,
+                Err(p) => Verdict::fail(format!("harness-panic:{}", p.site()), p.short()),
+            })
+        }
+        _ => None,
     }
 }
